@@ -1,5 +1,5 @@
 //! Suite Z (C09): whatever a client sends, the request terminates with a result or an error and the server keeps
-//! serving. Every request runs on its own task behind a watchdog; a liveness probe (read, simulation, and every few
+//! serving. Every request runs on its own task behind a watchdog (240 s: a loop under the largest legal gas allowance, 12000 x 4 MiB, needs about 30 s); a liveness probe (read, simulation, and every few
 //! requests a write round) follows each one. Oracle families: `panic`, `hang`, `wedged`.
 //!
 //! The Bitcoin node is a small in-process mock (JSON-RPC over HTTP): it knows a handful of canned transactions and one
@@ -363,7 +363,7 @@ pub fn gen(r: &mut Rng, p: &Params) -> Vec<String> {
                     let hash = if r.chance(70) { json!(h256(r.below(3))) } else { json!(weird_string(r)) };
                     let idx = if r.chance(70) { json!(r.below(3)) } else { weird_value(r, 0) };
                     let insc = json!(weird_string(r));
-                    let len = if r.chance(70) { json!(*r.pick(&[0u64, 1, 100, 100_000, u64::MAX / 12000 + 1, u64::MAX])) } else { weird_value(r, 0) };
+                    let len = if r.chance(70) { json!(*r.pick(&[0u64, 1, 100, 100_000, 100_000, 4 * 1024 * 1024, 4 * 1024 * 1024 + 1, u64::MAX / 12000 + 1, u64::MAX])) } else { weird_value(r, 0) };
                     let txid = if r.chance(70) { json!(h256(r.below(3))) } else { json!(weird_string(r)) };
                     match r.below(6) {
                         0 => json!({"jsonrpc": "2.0", "id": 1, "method": "brc20_deploy", "params": [pk, d, b, ts, hash, idx, insc, len, txid]}),
@@ -537,7 +537,7 @@ pub fn exec(lines: &[String], out: &mut Out, scratch: &Path) {
     });
     install_panic_recorder();
     let rt = eng::runtime();
-    let limit = Duration::from_secs(std::env::var("VERIF_Z_TIMEOUT").ok().and_then(|s| s.parse().ok()).unwrap_or(40));
+    let limit = Duration::from_secs(std::env::var("VERIF_Z_TIMEOUT").ok().and_then(|s| s.parse().ok()).unwrap_or(240));
     let mut live: Option<Live> = None;
     let mut n_inst = 0u64;
     let mut case = String::new();
@@ -687,7 +687,12 @@ pub fn exec(lines: &[String], out: &mut Out, scratch: &Path) {
             // the instance may be poisoned, empty or stuck: continue the case on a fresh one
             let old = live.take().unwrap();
             if verdict == "hang" {
-                leaked.push(old); // a thread still uses it
+                // a thread is still serving the request (and may keep allocating): the run ends here, the process
+                // exits when `main` returns
+                leaked.push(old);
+                out.count("stopped-after-hang");
+                std::mem::forget(leaked);
+                return;
             } else {
                 let mut o = old;
                 o.inst.close();
